@@ -228,8 +228,18 @@ impl<'a, T: RealNumber, M: Matrix<T>> ObjectiveFunction<T, M>
                     MultiClassObjectiveFunction::partial_dot(w_bias, self.x, j * (p + 1), i),
                 );
             }
+            let score = prob.get(0, self.y[i]);
+            let max = (0..self.k).fold(T::neg_infinity(), |m, j| m.max(prob.get(0, j)));
             prob.softmax_mut();
-            f -= prob.get(0, self.y[i]).ln();
+            let p_true = prob.get(0, self.y[i]);
+            if p_true > T::zero() {
+                f -= p_true.ln();
+            } else {
+                // the probability underflowed (ln would be -inf): p * sum_j exp(s_j - max) = exp(s_y - max) exactly,
+                // so the loss is -(s_y - max) + ln(sum_j exp(s_j - max)), and that sum is 1 / max_j p_j
+                let max_p = (0..self.k).fold(T::zero(), |m, j| m.max(prob.get(0, j)));
+                f -= (score - max) + max_p.ln();
+            }
         }
 
         if self.alpha > T::zero() {
